@@ -33,11 +33,13 @@ var outDir = verifDir
 func init() {
 	if v := os.Getenv("VERIF_REPO"); v != "" {
 		repoDir = v
-		outDir = os.Getenv("VERIF_OUT")
-		if outDir == "" {
+		if os.Getenv("VERIF_OUT") == "" {
 			fmt.Fprintln(os.Stderr, "VERIF_REPO needs VERIF_OUT")
 			os.Exit(2)
 		}
+	}
+	if v := os.Getenv("VERIF_OUT"); v != "" {
+		outDir = v
 		_ = os.MkdirAll(outDir, 0o755)
 	}
 }
